@@ -50,6 +50,11 @@ def site_stmt(site, a):
         "seg-target-low": '.define segment { name = "zl" start = $1000 pc = $0000 }\n.segment "zl" {\n* = $0fff\nlda $1234\n}',
         "seg-target-high": '.define segment { name = "zh" start = $1000 pc = $ff00 }\n.segment "zh" {\n* = $1100\nlda $1234\n}',
         "loop-nested": ".loop %s { .loop %s { } }" % (a, a),
+        "import-super": '.import super as zx from "zinc.asm"\nnop', "import-as-super": '.import * as super from "zinc.asm"\nnop',
+        "import-super-path": '.import zfoo as super.zq from "zinc.asm"\nnop',
+        "nested-defined": ".if " + "defined(" * 3000 + "zz" + ")" * 3000 + " { nop }",
+        "macro-blocks-3": ".macro zm3() { {{{ zm3() }}} }\nzm3()", "macro-blocks-95": ".macro zm95() { " + "{" * 95 + " zm95() " + "}" * 95 + " }\nzm95()",
+        "macro-ifs-40": ".macro zmi() { " + ".if 1 {" * 40 + " zmi() " + "}" * 40 + " }\nzmi()",
         "segblock-untaken": '.segment "default" {\n.if 0 { nop } else { inx }\n.byte 1\n}\nlda #1\n.byte 2',
         "segblock-untaken-own": '.define segment { name = "zw" start = $5000 }\n.segment "zw" {\n.if 1 { nop } else { inx }\n}\nldx #nosuch\n.segment "zw" { .if 0 { iny } }\ndex',
 
@@ -139,7 +144,7 @@ def main(tier):
     for k, c in enumerate(arith):
         if c["site"] == "loop" and c["arg"] in ("2^63-1", "2^31") and c["ctx"] in ("macro-uninvoked", "if-untaken"):
             pass
-        add({"main.asm": in_context(site_stmt(c["site"], ARG.get(c["arg"], "")), c["ctx"], k)}, "%s/%s" % (c["site"], c["arg"]))
+        add({"main.asm": in_context(site_stmt(c["site"], ARG.get(c["arg"], "")), c["ctx"], k), "zinc.asm": "zfoo: nop\n"}, "%s/%s" % (c["site"], c["arg"]))
         evaluated = c["ctx"] not in ("macro-uninvoked", "if-untaken") or c["arg"].startswith("wide")
         meta[len(cases)]["ideal"] = c["ideal"] if evaluated else ""
     graphs = V.read_ndjson(out_i)
